@@ -146,6 +146,8 @@ def run(chk):
     from .C05 import parallel_gradient, v_parallel
     pg_attrs, pg_summ = parallel_gradient(chk)
     v_parallel(chk, pg_summ)
+    from .. import lints as _l
+    _l.check_cache_keys(chk, U.ADV, "VParallelAdvection")
     chk.floor("F2-", 4)
     chk.floor("E2-argument-role", 12)
     chk.floor("C", 4)
